@@ -4,6 +4,7 @@ import VaxisModel.Model.TermKey
 import VaxisModel.Model.TermMouse
 import VaxisModel.Model.TermBody
 import VaxisModel.Model.TermInputModes
+import VaxisModel.Model.TermChild
 import VaxisModel.Spec.TermInput
 
 /-! Driver for C13 (keys, pastes and mouse forwarded into the embedded terminal). Stateless lines.
@@ -24,14 +25,18 @@ Ops (`op<TAB>impl`):
                        parser makes of the payload; events = what the host posted (S, E, K<key>), each forwarded with the
                        real Model.Update; out = code points the child received
   ckey U script key / cmouse script mouse / cpaste script start|end
-                       the same, but the modes are whatever the child's own output `script` selected: the harness
-                       feeds the bytes through the real parser and Model.update; the oracle uses Spec.specModes
+                       the same, but the modes are whatever the child's own output `script` selected (mode sequences
+                       and any other output: text, cursor movement, SM/RM, DECSTR, DECSC/DECRC, OSC, resizes …): the
+                       harness feeds the bytes through the real parser and Model.update; model = the regenerated dispatch
+                       and mode tables (`TermChild.modesAfter`, which `Props/C13Child` proves equal to the emulator model
+                       `Model.Emu` on every stream); the oracle uses `Spec.specModesOfStream`
 -/
 namespace VaxisModel.Driver.C13
 open VaxisModel.Driver VaxisModel.Driver.C09
 open VaxisModel.Model.Key VaxisModel.Model.Mouse VaxisModel.Model.TermKey VaxisModel.Model.TermMouse
 open VaxisModel.Spec VaxisModel.Spec.TermInput
-open VaxisModel.Model.TermInputModes (ChildOp childModes)
+open VaxisModel.Model.TermInputModes (ChildOp ChildSeq)
+open VaxisModel.Model.TermChild (modesAfter)
 
 def modesOf (n : Nat) : Modes :=
   { deckpam := bit n 0, decckm := bit n 1, paste := bit n 2, mouseButtons := bit n 3, mouseDrag := bit n 4,
@@ -156,16 +161,34 @@ def mouseVerdict (md : Modes) (m : Mouse) (seqs : List PSeq) (pmTok : String) : 
         | none => "FAIL [mouse round trip] Vaxis does not parse the report back"
   else "-"
 
-/-- `s1.1006,r1000,pam,pnm,ris` — what the child wrote before the event ('-' = nothing). -/
-def parseScript? (tok : String) : Option (List ChildOp) :=
+/-- What the child wrote before the event ('-' = nothing), one token per parsed sequence:
+    `s1.1006` = `CSI ? 1 ; 1006 h`, `r1000` = `CSI ? 1000 l`, `pam` = `ESC =`, `pnm` = `ESC >`, `ris` = `ESC c`;
+    any other CSI as `c<label hex>:<params>` (label = intermediates ++ final as the real parser reports them,
+    e.g. `c68:1000` = `CSI 1000 h` (ANSI SM), `c2170:` = `CSI ! p` (DECSTR)), any other ESC as `e<label hex>`;
+    `t<hex>` = text / C0 bytes, `o<hex>` = an OSC string, `z<w>x<h>` = the widget is resized. -/
+def parseScript? (tok : String) : Option (List ChildSeq) :=
   if tok = "-" ∨ tok = "" then some [] else
   (tok.splitOn ",").mapM fun t =>
-    if t = "pam" then some .pam
-    else if t = "pnm" then some .pnm
-    else if t = "ris" then some .ris
-    else if t.startsWith "s" then (sepInts? "." (t.drop 1).toString).map .set
-    else if t.startsWith "r" then (sepInts? "." (t.drop 1).toString).map .reset
+    if t = "pam" then some (.esc [61])
+    else if t = "pnm" then some (.esc [62])
+    else if t = "ris" then some (.esc [99])
+    else if t.startsWith "s" then (sepInts? "." (t.drop 1).toString).map (.csi [63, 104])
+    else if t.startsWith "r" then (sepInts? "." (t.drop 1).toString).map (.csi [63, 108])
+    else if t.startsWith "c" then
+      match (t.drop 1).toString.splitOn ":" with
+      | [lab, ps] => do
+          let l ← hexBytes? lab
+          let ps ← sepInts? "." ps
+          if l.isEmpty then none else pure (.csi l ps)
+      | _ => none
+    else if t.startsWith "e" then (hexBytes? (t.drop 1).toString).bind fun l => if l.isEmpty then none else some (.esc l)
+    else if t.startsWith "t" ∨ t.startsWith "o" ∨ t.startsWith "z" then some .other
     else none
+
+/-- The modes the model of the code is in after the child's stream (regenerated dispatch and mode tables). -/
+def childModes (seqs : List ChildSeq) : Modes := modesAfter {} seqs
+/-- The modes the child selected, by the standard. -/
+def specModes (seqs : List ChildSeq) : Modes := specModesOfStream seqs
 
 /-- `mdM` = the modes the model of the code is in, `mdS` = the modes the child selected according to
     the Spec (they coincide for the ops that set the modes through the hook). -/
